@@ -736,3 +736,6 @@ M('zmq-D67-shape-pub-closed-with-default-linger', ['C05'], Z, "            pub.c
 M('zmq-pub-closed-with-infinite-linger', ['C05'], Z, "            pub.close(linger=ZMQ_EXPLICIT_LINGER)  #", "            pub.close(linger=-1)  #", ['C05.R12'])
 M('rolllog-D68-shape-second-listing-unbounded', ['C13', 'C14'], RL, "(m := re_logpath.match(path)) and int(m.group(1)) <= newest:", "(m := re_logpath.match(path)):", ['C13.R8', 'C14.R7'])
 M('rolllog-D68-shape-bound-strict', ['C13', 'C14'], RL, "(m := re_logpath.match(path)) and int(m.group(1)) <= newest:", "(m := re_logpath.match(path)) and int(m.group(1)) < newest:", ['C13.R8', 'C14.R7'])
+M('videoout-D70-shape-helper-logger-loud', ['C15'], VO, "self.stfu               = lambda: (writegear.logger.setLevel(logging.ERROR), helper.logger.setLevel(logging.ERROR))", "self.stfu               = lambda: (writegear.logger.setLevel(logging.ERROR),)", ['C15.R7'])
+M('videoout-writer-constructed-loud', ['C15'], VO, "        self.stfu()\n        self.writer = self.WriteGear(", "        self.writer = self.WriteGear(", ['C15.R7'])
+M('run-D71-shape-policy-lookup-after-ctor', ['C18'], F, "            filter = cls(config, stop_evt, obey_exit)  # will call .start_logging()\n           \n            try:\n", "            filter = cls(config, stop_evt, obey_exit)  # will call .start_logging()\n           \n            try:\n                prop_exit = PROP_EXIT_FLAGS[prop_exit] if isinstance(prop_exit, str) else prop_exit\n", ['C18.R3'])
